@@ -277,4 +277,18 @@ PROPS = {
         "level_text": "Exploration of the option product: about a thousand (quick) to tens of thousands of real invocations covering every -t/-c class, both commands, flags and all error classes; supported outputs are decided cell by cell against the library, error paths by status/stderr/stdout. Right level: a finite-but-large configuration product observed at the process boundary.",
         "level_note": "Trusts the in-process library as the model for supported combinations (by the statement) and the own parser.",
     },
+    "C13": {
+        "budget_s": {"quick": 120, "thorough": 1500},
+        "floor": {"quick": 20000, "thorough": 500000},
+        "rule": "random programs of 5-40 operations over a pool of sparse matrices (i64, Ratio<i64>, FF<3>; shapes 0..7 incl. zero dimensions; explicit stored zeros injected through From<CscMatrix> and produced by a - a): "
+                "from_entries with duplicate triplets and zeros, from_dense_data, from_col_vecs, +, -, * in three operator forms, neg, transpose, permute / permute_rows / permute_cols, submat(_rows/_cols), "
+                "divide4 at arbitrary (non-square) split points with every block checked + combine_blocks, concat, stack, extend_cols, round trips through the dense container with swap / add_row_to / add_col_to, "
+                "dense +=, -=, *, matrix * vector, SpVec split / stack / subvec / permute / +,-, is_zero / iter_nz / shape, id * A, A + 0; after every operation all entries are compared with a dense model updated by the definition; "
+                "Trans histories of 2-10 steps (append, append_perm, merge, reduce, sub with arbitrary index lists incl. full-length reorderings and repetitions): forward_mat, backward_mat, forward(v), backward(w), dims compared with the "
+                "product of the factors after every step; non-trivial = program touches a stored zero or a zero dimension or has >= 10 ops (Trans: >= 3 steps); distinct = hash of the history",
+        "assumptions": COMMON_ASSUME + ["SpMat::is_id is not judged (it inspects stored entries only; not among the operations the property lists)", "machine-integer overflow in products is counted as inconclusive"],
+        "technique": "reference-model monitor: random operation programs on SpMat/SpVec/Mat/Trans compared entry by entry with a dense model after every step",
+        "level_text": "Exploration: hundreds of thousands of programs (millions of operations) with zero-sized shapes, stored zeros and non-square split points; every step is decided by a definition-level dense model. Right level: input/history property of container types with an exact oracle.",
+        "level_note": "Trusts the dense model and the permutation convention (entry (i,j) moves to (p[i], q[j])), which is the library's documented one.",
+    },
 }
